@@ -67,7 +67,8 @@ StaticPrefix(p) == \A h \in Live(p) : p.hd[h].k = "S" =>                       \
                      (p.hd[h].pid \in DOMAIN PStatics /\ IsPrefix(p.hd[h].text, PStatics[p.hd[h].pid]))
 
 \* ------------------------------------------------------------- step predicates
-FailureAllowed(c) == c.inj \/ (c.op \in SizedOps /\ PIsSym(c.n))
+\* (shrink_to is a sized operation that never needs more than it has: a giant lower bound is a no-op, as for String)
+FailureAllowed(c) == c.inj \/ (c.op \in (SizedOps \ {"shrink_to"}) /\ PIsSym(c.n))
 ResultOK(c, a) ==                                                              \* C01 C07
   IF Failed(c) THEN FailureAllowed(c)      \* String never fails here: an error needs a cause
   ELSE c.cls = a.cls /\ c.val = a.val /\ (c.cls = "panic" => c.msg = a.msg)
